@@ -4,7 +4,9 @@
    [inside s e x] = s <= x <= e.  Not modelled: how NumPy produces the draws (only their range / being a
    permutation is used, as hypotheses).  FALSE of the faithful model, hence stated as _refuted: member counts of
    a TsGroup whose support is RECOMPUTED (jitter keep_tsupport=False, shuffle) when a member has a single
-   distinct timestamp (all members so: the call raises), or when the group is a pair of members whose recomputed supports touch. *)
+   distinct timestamp (all members so: the call raises).  A pair of members whose recomputed supports touch was a
+   second exception until 6917604 (TsGroup's _union_intervals: pairwise jitunion + 1 us trim); the model follows the
+   repaired code (n-ary union for two members too) and the old behaviour is kept as an _orig_refuted witness. *)
 From Verif Require Import Base.Prelude Model.Restrict Model.Iset Model.Randomize Proofs.RandomizeProofs.
 From Coq Require Import Permutation.
 
@@ -133,11 +135,10 @@ Proof. exact @group_keys_kept. Qed.
 Print Assumptions C20_group_keys.
 
 (* 6. TsGroup, support RECOMPUTED (jitter keep_tsupport=False, shuffle): keys kept; every member with at least two
-      distinct result timestamps is exactly its Ts result (count, bound / first stamp, intervals), provided the
-      group is not a pair of members whose recomputed supports touch (any group of 1 or >= 3 members qualifies) *)
+      distinct result timestamps is exactly its Ts result (count, bound / first stamp, intervals) - for groups of any
+      size, touching member supports included (since 6917604) *)
 Theorem C20_group_jitter : forall s e g dss out G,
   jitter_group false s e g dss = Some (out, G) ->
-  no_touching_pair (map (fun p => first_last_support (jittered p)) (combine g dss)) ->
   map fst out = map (fun p : (Z * list Z) * list Z => fst (fst p)) (combine g dss)
   /\ Forall2 (fun (p : (Z * list Z) * list Z) (o : Z * list Z) =>
                 fst o = fst (fst p)
@@ -146,6 +147,7 @@ Theorem C20_group_jitter : forall s e g dss out G,
 Proof. exact jitter_group_free_spec. Qed.
 Print Assumptions C20_group_jitter.
 
+(* (special case kept from the time a pair of members was an exception) *)
 Theorem C20_group_jitter_not_a_pair : forall s e g dss out G,
   length dss = length g -> length g <> 2%nat ->
   jitter_group false s e g dss = Some (out, G) ->
@@ -160,7 +162,6 @@ Print Assumptions C20_group_jitter_not_a_pair.
 Theorem C20_group_shuffle : forall g perms out G,
   Forall2 valid_shuffle_input g perms ->
   shuffle_group g perms = Some (out, G) ->
-  (forall ms, shuffle_members g perms = Some ms -> no_touching_pair (map (fun m : member => snd (snd m)) ms)) ->
   map fst out = map fst g
   /\ Forall2 (fun (kt : Z * list Z) (o : Z * list Z) =>
                 fst o = fst kt
@@ -194,13 +195,21 @@ Theorem C20_group_recomputed_support_single_refuted :
 Proof. exact group_recomputed_support_refuted_single. Qed.
 Print Assumptions C20_group_recomputed_support_single_refuted.
 
-Theorem C20_group_recomputed_support_touching_refuted :
+(* two members whose recomputed supports touch: the code BEFORE 6917604 lost a timestamp there ... *)
+Theorem C20_group_recomputed_support_touching_orig_refuted :
   exists g perms out G,
     Forall2 valid_shuffle_input g perms /\ Forall (fun kt => nondegenerate (snd kt)) g
-    /\ shuffle_group g perms = Some (out, G)
+    /\ shuffle_group_orig g perms = Some (out, G)
     /\ exists k ts ts', In (k, ts) g /\ In (k, ts') out /\ (length ts' < length ts)%nat.
-Proof. exact group_recomputed_support_refuted_touching. Qed.
-Print Assumptions C20_group_recomputed_support_touching_refuted.
+Proof. exact group_recomputed_support_touching_orig_refuted. Qed.
+Print Assumptions C20_group_recomputed_support_touching_orig_refuted.
+
+(* ... the same input now: the two supports [0, 1000000] and [1000000, 2000000] merge, every timestamp is kept *)
+Theorem C20_group_recomputed_support_touching_kept :
+  shuffle_group [(0, [0; 999500; 1000000]); (1, [1000000; 2000000])] [[0%nat; 1%nat]; [0%nat]]
+  = Some ([(0, [0; 999500; 1000000]); (1, [1000000; 2000000])], [(0, 2000000)]).
+Proof. exact group_recomputed_support_touching_kept. Qed.
+Print Assumptions C20_group_recomputed_support_touching_kept.
 
 Theorem C20_group_recomputed_support_raises_refuted :
   shuffle_group [(0, [10]); (1, [20; 20])] [[]; [0%nat]] = None
